@@ -142,7 +142,7 @@ fn main() {
             }
             writeln!(reg, "    ]));").unwrap();
             for var in &variants {
-                let vpath = format!("crate::derive_mods::{var}{m}::{t}");
+                let vpath = format!("tierd_mods::{var}{m}::{t}");
                 let sp = spoilers_for(&vpath, fields);
                 writeln!(reg, "    v.push(crate::laws::ops::<{vpath}>(\"{var}{m}\", \"{t}\", vec![").unwrap();
                 for s in sp {
